@@ -5,6 +5,7 @@ package ev
 
 import (
 	"bufio"
+	"runtime"
 	"runtime/debug"
 	"sync/atomic"
 	"bytes"
@@ -327,6 +328,18 @@ func workerMain(ck *Check, tier, sh string) int {
 		}
 	}
 	debug.SetMaxStack(48 << 20)
+	// memory guard: a runaway exploration must not take the machine down
+	go func() {
+		var ms runtime.MemStats
+		for {
+			time.Sleep(3 * time.Second)
+			runtime.ReadMemStats(&ms)
+			if ms.Sys > 6<<30 {
+				fmt.Fprintln(os.Stderr, "INTERNAL: worker exceeded 6 GiB, aborting")
+				os.Exit(5)
+			}
+		}
+	}()
 	if ck.CrashIsViolation {
 		c.beat = time.Now().UnixNano()
 		go func() {
